@@ -10,16 +10,29 @@ class Case:
     pass
 
 
+GLITCHY = [g for g in cg.GATE_KINDS if g[0].lower().startswith(('xor', 'xnor'))] * 3 + [('MUX21', 3), ('INV1', 1), ('BUF1', 1)]
+
+
+def stress_kw(rng):
+    """Glitch stress: small parity-rich circuits, every input with a multi-transition waveform, widely differing per-line
+    capacities -- outputs collect many transitions, so capacities (and which capacity belongs to which line) matter."""
+    return {'n_gates': rng.choice([3, 5, 8, 12, 20]), 'kinds': GLITCHY, 'allow_dangling': False, 'tmax': 40, 'busy': True, 'n_pi': rng.randint(3, 7), 'distinct_ins': True, 'capmode': rng.choice(['vec', 'skew', 'skew']),
+            'extra_prob': 0.9, 'seq': rng.random() < 0.3, 'style': rng.choice(['polfree', 'uniform', 'polfree', 'full']), 'allow_unconnected': False}
+
+
 def gen_wave_case(rng, **kw):
     k = Case()
-    k.c, k.a = cg.gen_circuit(rng, **{x: kw[x] for x in ('n_gates', 'seq', 'allow_unconnected', 'allow_dangling', 'fork_style', 'branchforks') if x in kw})
+    k.c, k.a = cg.gen_circuit(rng, **{x: kw[x] for x in ('n_gates', 'seq', 'allow_unconnected', 'allow_dangling', 'fork_style', 'branchforks', 'kinds', 'n_pi', 'distinct_ins') if x in kw})
     k.reuse = kw.get('reuse', rng.random() < 0.5)
     k.strip = kw.get('strip', False)
     k.sims = kw.get('sims', rng.choice([1, 2, 3, 5]))
     k.delays, k.style = wc.gen_delays(rng, len(k.c.lines), kw.get('style'))
     capmode = kw.get('capmode', rng.choice(['4', '8', '16', 'vec', 'vec']))
-    k.caps = int(capmode) if capmode != 'vec' else [rng.choice([4, 8, 12, 16]) for _ in range(len(k.c.lines))]
-    k.s0, k.s1, k.s2, k.extra = wc.gen_stimulus(rng, k.c, k.sims, tmax=kw.get('tmax', 12), extra_prob=kw.get('extra_prob', 0.4))
+    if capmode == 'skew':
+        k.caps = [4 if rng.random() < (0.4 if i < 10 else 0.08) else rng.choice([16, 24, 32]) for i in range(len(k.c.lines))]
+    else:
+        k.caps = int(capmode) if capmode != 'vec' else [rng.choice([4, 8, 12, 16]) for _ in range(len(k.c.lines))]
+    k.s0, k.s1, k.s2, k.extra = wc.gen_stimulus(rng, k.c, k.sims, tmax=kw.get('tmax', 12), extra_prob=kw.get('extra_prob', 0.4), busy=kw.get('busy', False))
     k.tcap = kw.get('tcap', rng.choice([None, None, 3, 6, 9, 14]))
     k.a_ctrl = None
     if kw.get('with_actrl', False):
@@ -57,13 +70,17 @@ def run_case(k, cuda=False, **over):
                           a_ctrl=k.a_ctrl, cuda=cuda)
 
 
-def campaign(ck, n, oracle, gen_kw=None, coq_lanes=1, label='WaveSim', coq_every=1):
+def campaign(ck, n, oracle, gen_kw=None, coq_lanes=1, label='WaveSim', coq_every=1, stress_every=0):
     """oracle(k, w) -> None | failure text.  Returns (fails, mismatching metas)."""
     rng = random.Random(ck.seed * 7919 + sum(map(ord, ck.pid)))
     fails, coq_cases, meta = [], [], []
     stats = {'overflowing_waveforms': 0, 'waveforms': 0, 'finite_transitions': 0}
     for i in range(n):
-        k = gen_wave_case(rng, **(gen_kw or {}))
+        kw = dict(gen_kw or {})
+        if stress_every and i % stress_every == stress_every - 1:
+            kw.update(stress_kw(rng))
+            ck.count(0, 'glitch-stress')
+        k = gen_wave_case(rng, **kw)
         try:
             w = run_case(k)
         except Exception:
